@@ -54,3 +54,7 @@ claim('C14', 'finite-domain transfer-function extraction of the single-qubit Pau
       'C14.a Pauli.third/relative_index/phased_pauli_product, MutablePauliString._imul_atom_helper and the dense per-term phase == Pauli group table (exhaustive); '
       'C14.b integer/char encodings agree across classes; C14.c PAULI_EIGEN_MAP projectors; C14.e in-place multiply entry points use the side their name says',
       'multi-qubit bookkeeping, PauliSum arithmetic, conjugation by Cliffords, expectation values, phasor decompositions')
+claim('C03', 'literal-table extraction (constant folding; loop-built qudit tables through my AST evaluator) checked against projector axioms and textbook matrices held in the checker; named-constant and rotation-helper table agreement',
+      'C03.a/b eigen-component tables of 15 gate families (+ qutrit X/Z) are complete orthogonal projectors encoding the textbook matrix; C03.c 28 named constants are the '
+      'documented family with documented arguments; C03.e Rx/Ry/Rz radians<->half-turn conversion and global shift, Sycamore/Willow angles',
+      'closed forms depending on runtime parameters (FSim, PhasedX(Z), channels, QFT, diagonal, arithmetic, IonQ native gates), EigenGate._unitary_ consuming the tables')
